@@ -144,6 +144,8 @@ def try_resolve : Nat := 237
 def resolve : Nat := 238
 def deref : Nat := 119
 def as_child : Nat := 253
+def next : Nat := 254
+def children : Nat := 255
 def data : Nat := 239
 def fetch_add : Nat := 241
 def fetch_sub : Nat := 242
